@@ -398,6 +398,7 @@ def _prof(name: str) -> Prof:
         PROFS.update(
             {
                 'arg': Prof(symbol=1, metavars=3, mv_cfgs=((0, 0, 0, 0), (1, 0, 0, 0)), app=True, notations=(P.bot, P.neg)),
+                'arg_tiny': Prof(symbol=0, svar=False, metavars=1, app=False, mu=False, exists=False, implies=False),
                 'arg_small': Prof(symbol=1, svar=False, metavars=2, mv_cfgs=((0, 0, 0, 0), (1, 0, 0, 0)), app=False, mu=False, exists=False, implies=False, notations=(P.bot,)),
             }
         )
@@ -422,6 +423,73 @@ def h_lemma(ctx: Any, name: str, size: int, prof: str = 'arg', twin: bool = Fals
     ctx.check(O.eq(O.expand(conc), want), f'C10.{name}.advertised-conclusion-differs-from-schema', lambda: f'{name} with {vals!r}: advertises {conc!r}, schema says {O.show(want)}')
     ctx.check(O.eq(O.expand(res.conclusion), want), f'C10.{name}.replayed-conclusion-differs-from-schema', lambda: f'{name} with {vals!r}: replay proves {res!r}, schema says {O.show(want)}')
     ctx.check(not forb, f'C10.{name}.uses-other-rules', lambda: repr(forb))
+
+
+def match_schema(ast: Any, t: tuple, env: dict) -> bool:
+    """match a schema AST against an oracle term, binding letters (my own matcher, on full expansions)"""
+    k = ast[0]
+    if k == 'var':
+        if ast[1] in env:
+            return O.eq(env[ast[1]], t)
+        env[ast[1]] = t
+        return True
+    if k == 'bot':
+        return O.eq(t, refm.BOT)
+    if k == 'top':
+        return O.eq(t, refm.neg(refm.BOT))
+    if k == 'not':
+        return t[0] == 'imp' and O.eq(t[2], refm.BOT) and match_schema(ast[1], t[1], env)
+    if k == 'imp':
+        return t[0] == 'imp' and match_schema(ast[1], t[1], env) and match_schema(ast[2], t[2], env)
+    if k == 'or':
+        return match_schema(('imp', ('not', ast[1]), ast[2]), t, env)
+    if k == 'and':
+        return match_schema(('not', ('imp', ast[1], ('not', ast[2]))), t, env)
+    if k == 'iff':
+        return match_schema(('and', ('imp', ast[1], ast[2]), ('imp', ast[2], ast[1])), t, env)
+    return False
+
+
+INNER = ('imp_refl', 'absurd', 'and_l_imp', 'dneg_intro', 'con3', 'or_comm_imp', 'ian')
+
+
+def h_nested(ctx: Any, outer: str, twin: bool = False) -> None:
+    """a derived rule applied to the proof returned by another lemma (not to an axiom)"""
+    from proof_generation.tautology import Tautology
+
+    info = INV[outer]
+    prem, concl = info['schema']
+    b = BIND[outer]
+    t = Tautology()
+    inner = INNER[ctx.choose(len(INNER), 'inner')]
+    iinfo = INV[inner]
+    ivals = {l: gens.gen_upto(ctx, 1, _prof('arg_tiny')) for l in iinfo['letters']}
+    try:
+        th_in = getattr(t, inner)(**{pn: ivals[BIND[inner][pn]] for pn in iinfo['patterns']})
+    except Exception:
+        ctx.assume(False)
+    env: dict = {}
+    if not match_schema(prem[0], O.expand(th_in.conc), env):
+        ctx.count('inner_conclusion_does_not_fit_the_premise')
+        ctx.assume(False)
+    # letters not fixed by the premise get fresh arguments
+    vals = {l: gens.from_term(env[l]) if l in env else gens.gen_upto(ctx, 1, _prof('arg_tiny')) for l in info['letters']}
+    ctx.count('reached')
+    ctx.sample({'outer': outer, 'inner': inner, 'inner_conclusion': repr(th_in.conc)})
+    if twin:
+        ctx.violation('TWIN')
+    try:
+        kwargs = {pn: vals[b[pn]] for pn in info['patterns']}
+        kwargs[info['thunks'][0]] = th_in
+        th = getattr(t, outer)(**kwargs)
+        it = Recording.make(list(t._axioms))
+        res = th(it)
+    except Exception as e:
+        ctx.violation(f'C10.{outer}.raises-on-lemma-premise[{inner}|{type(e).__name__}]', f'{outer}({inner}{ivals!r}): {type(e).__name__}: {str(e)[:200]}')
+    want = term(concl, {l: O.expand(v) for l, v in vals.items()})
+    ctx.check(O.eq(O.expand(th.conc), want), f'C10.{outer}.advertised-conclusion-differs-from-schema[nested]', lambda: f'{outer}({inner}{ivals!r}): advertises {th.conc!r}, schema says {O.show(want)}')
+    ctx.check(O.eq(O.expand(res.conclusion), want), f'C10.{outer}.replayed-conclusion-differs-from-schema[nested]', lambda: f'{outer}({inner}{ivals!r}): replay proves {res!r}')
+    ctx.check(not it.forbidden, f'C10.{outer}.uses-other-rules[nested]', lambda: repr(it.forbidden))
 
 
 def h_conj_nth(ctx: Any, l: int, size: int, twin: bool = False) -> None:
@@ -466,6 +534,12 @@ def levels(tier: str) -> list[dict]:
             size, prof = 1, 'arg_small'
         L.append(dict(label=f'{name}/args<={size}/{prof}', module=M, fn='h_lemma', kwargs=dict(name=name, size=size, prof=prof), budget_s=150 if q else 900, required=True, twin=first))
         first = False
+    quick_nested = ('con3_i', 'dni_l_i', 'ant_commutativity', 'imp_to_and', 'a1d', 'con1')
+    for name in sorted(BIND):
+        if q and name not in quick_nested:
+            continue
+        if len(INV[name]['thunks']) == 1 and all(i in BIND for i in INNER):
+            L.append(dict(label=f'nested/{name}(lemma)', module=M, fn='h_nested', kwargs=dict(outer=name), budget_s=150 if q else 900, required=False, twin=False, novacuity=True))
     for l, size in ([(1, 3), (2, 3), (3, 1)] if q else [(1, 5), (2, 3), (3, 3)]):
         L.append(dict(label=f'conjunction_implies_nth/l={l},conjuncts<={size}', module=M, fn='h_conj_nth', kwargs=dict(l=l, size=size), budget_s=150 if q else 900, required=True, twin=False))
     return L
